@@ -1,0 +1,169 @@
+//go:build verif
+
+package certmagic
+
+import (
+	"net/http"
+	"sort"
+	"time"
+
+	"github.com/mholt/acmez/v3"
+	"github.com/mholt/acmez/v3/acme"
+)
+
+// Verification hooks (build tag "verif" only) for the challenge solvers and the challenge
+// handlers: constructors of the unexported solver types, the solver set newACMEClient builds,
+// and read-only snapshots of the package-level solver state. No existing code is changed.
+
+// VerifChallengeSolvers returns the challenge solvers that newACMEClient configures for iss
+// (the real stack: solverWrapper{distributedSolver{httpSolver|tlsALPNSolver}} or
+// solverWrapper{DNS01Solver}), keyed by challenge type.
+func VerifChallengeSolvers(iss *ACMEIssuer, useTestCA bool) (map[string]acmez.Solver, error) {
+	client, err := iss.newACMEClient(useTestCA)
+	if err != nil {
+		return nil, err
+	}
+	return client.ChallengeSolvers, nil
+}
+
+// VerifSolverDesc describes the layers of a solver built by this package.
+type VerifSolverDesc struct {
+	Wrapped     bool   // outermost layer is solverWrapper
+	Distributed bool   // next layer is distributedSolver
+	Prefix      string // distributedSolver.storageKeyIssuerPrefix
+	Kind        string // "http", "tlsalpn", "dns" or "other": the innermost solver
+	Address     string // listener address of an http / tlsalpn solver
+}
+
+// VerifDescribeSolver reports how s is layered.
+func VerifDescribeSolver(s acmez.Solver) VerifSolverDesc {
+	var d VerifSolverDesc
+	if sw, ok := s.(solverWrapper); ok {
+		d.Wrapped = true
+		s = sw.Solver
+	}
+	if ds, ok := s.(distributedSolver); ok {
+		d.Distributed = true
+		d.Prefix = ds.storageKeyIssuerPrefix
+		s = ds.solver
+	}
+	switch v := s.(type) {
+	case *httpSolver:
+		d.Kind, d.Address = "http", v.address
+	case *tlsALPNSolver:
+		d.Kind, d.Address = "tlsalpn", v.address
+	case *DNS01Solver:
+		d.Kind = "dns"
+	default:
+		d.Kind = "other"
+	}
+	return d
+}
+
+// VerifUnwrapSolver strips the solverWrapper layer (the in-memory challenge registry), if any.
+func VerifUnwrapSolver(s acmez.Solver) acmez.Solver {
+	if sw, ok := s.(solverWrapper); ok {
+		return sw.Solver
+	}
+	return s
+}
+
+// VerifSolverWrapper wraps inner in a solverWrapper.
+func VerifSolverWrapper(inner acmez.Solver) acmez.Solver { return solverWrapper{inner} }
+
+// VerifDistributedSolver wraps inner in a distributedSolver on the given storage and issuer prefix.
+func VerifDistributedSolver(storage Storage, issuerPrefix string, inner acmez.Solver) acmez.Solver {
+	return distributedSolver{storage: storage, storageKeyIssuerPrefix: issuerPrefix, solver: inner}
+}
+
+// VerifHTTPSolver returns an httpSolver for address whose handler is iss's challenge handler.
+func VerifHTTPSolver(iss *ACMEIssuer, address string) acmez.Solver {
+	return &httpSolver{handler: iss.HTTPChallengeHandler(http.NewServeMux()), address: address}
+}
+
+// VerifTLSALPNSolver returns a tlsALPNSolver for address serving with cfg.
+func VerifTLSALPNSolver(cfg *Config, address string) acmez.Solver {
+	return &tlsALPNSolver{config: cfg, address: address}
+}
+
+// VerifCAPrefix exposes ACMEIssuer.storageKeyCAPrefix.
+func VerifCAPrefix(iss *ACMEIssuer, caURL string) string { return iss.storageKeyCAPrefix(caURL) }
+
+// VerifSolverInfo is one entry of the package-level solvers map.
+type VerifSolverInfo struct {
+	Address   string
+	Count     int
+	Listening bool // listener != nil
+}
+
+// VerifSolversSnapshot returns the solvers map, sorted by address.
+func VerifSolversSnapshot() []VerifSolverInfo {
+	solversMu.Lock()
+	defer solversMu.Unlock()
+	out := make([]VerifSolverInfo, 0, len(solvers))
+	for a, si := range solvers {
+		out = append(out, VerifSolverInfo{Address: a, Count: si.count, Listening: si.listener != nil})
+	}
+	sort.Slice(out, func(i, j int) bool { return out[i].Address < out[j].Address })
+	return out
+}
+
+// VerifActiveChallenge is one entry of the package-level activeChallenges map.
+type VerifActiveChallenge struct {
+	Key       string
+	Challenge acme.Challenge
+	HasData   bool
+}
+
+// VerifActiveChallenges returns the activeChallenges map, sorted by key.
+func VerifActiveChallenges() []VerifActiveChallenge {
+	activeChallengesMu.Lock()
+	defer activeChallengesMu.Unlock()
+	out := make([]VerifActiveChallenge, 0, len(activeChallenges))
+	for k, c := range activeChallenges {
+		out = append(out, VerifActiveChallenge{Key: k, Challenge: c.Challenge, HasData: c.data != nil})
+	}
+	sort.Slice(out, func(i, j int) bool { return out[i].Key < out[j].Key })
+	return out
+}
+
+// VerifDNSMemory is one remembered record of a DNSManager.
+type VerifDNSMemory struct {
+	DNSName, Zone, Name, Type, Data string
+}
+
+// VerifDNSMemories returns the records a DNSManager remembers, per DNS name in order, and the
+// number of keys of the map (names whose list may have become empty).
+func VerifDNSMemories(m *DNSManager) ([]VerifDNSMemory, int) {
+	m.recordsMu.Lock()
+	defer m.recordsMu.Unlock()
+	names := make([]string, 0, len(m.records))
+	for n := range m.records {
+		names = append(names, n)
+	}
+	sort.Strings(names)
+	var out []VerifDNSMemory
+	for _, n := range names {
+		for _, mem := range m.records[n] {
+			out = append(out, VerifDNSMemory{DNSName: mem.dnsName, Zone: mem.zoneRec.zone,
+				Name: mem.zoneRec.record.Name, Type: mem.zoneRec.record.Type, Data: mem.zoneRec.record.Data})
+		}
+	}
+	return out, len(names)
+}
+
+// VerifSeedZone makes FindZoneByFQDN answer zone for fqdn from its cache (no DNS traffic).
+func VerifSeedZone(fqdn, zone string) {
+	if len(fqdn) == 0 || fqdn[len(fqdn)-1] != '.' {
+		fqdn += "."
+	}
+	fqdnSOACacheMu.Lock()
+	fqdnSOACache[fqdn] = &soaCacheEntry{zone: zone, primaryNs: "ns." + zone, expires: time.Now().Add(24 * time.Hour)}
+	fqdnSOACacheMu.Unlock()
+}
+
+// VerifHostOnly exposes hostOnly.
+func VerifHostOnly(hostport string) string { return hostOnly(hostport) }
+
+// VerifChallengeKey exposes challengeKey.
+func VerifChallengeKey(chal acme.Challenge) string { return challengeKey(chal) }
